@@ -42,7 +42,7 @@ Step ==
         THEN tg' = NewTG /\ viol' = viol /\ drift' = drift /\ cnt' = Bump(cnt, {"runs"})
         ELSE LET r == IF ln.op = "TG.Start" THEN TOK(Deliver(NewTG, obs, [i \in Seats(obs) |-> obs.P[i].comb])) ELSE ModelStep(tg, ln, obs)
                  ok == ln.op = "TG.Start" \/ TGStepOK(tg, ln, obs)
-             IN /\ viol' = IF Cardinality(viol) >= MaxViol THEN viol ELSE viol \cup {<<l + 1, nm>> : nm \in (IF "C07" \in Props THEN Bad(ln) ELSE {})}
+             IN /\ viol' = viol \cup {<<l + 1, nm>> : nm \in {x \in (IF "C07" \in Props THEN Bad(ln) ELSE {}) : Cardinality({w \in viol : w[2] = x}) < MaxViol}}
                 /\ drift' = IF ok \/ Cardinality(drift) >= MaxViol THEN drift ELSE drift \cup {l + 1}
                 \* the model state follows the observation (re-synchronised on drift); the ready group's bookkeeping comes from the model
                 /\ tg' = IF ln.op = "TG.Start" THEN [r.tg EXCEPT !.g = obs]
